@@ -47,7 +47,19 @@ def run_case(cs):
     had_failed = had_sf = pat_later = False
     altered = {}
     recorded = set()
+    # a travelling card: every generation is written under another zone (the creation date texts are then not in
+    # lexicographic order), now and then with a clock that was set back
+    travel = rng.random() < 0.2
+    tnow = 1700000000 + rng.randint(0, 10**7)
+    if travel:
+        cs.count("travelling_histories")
     for g in range(gens):
+        if travel:
+            from .. import clock
+
+            tnow += rng.choice([2, 60, 3600, 7200, 86400]) if rng.random() < 0.85 or g == 0 else -rng.choice([1800, 3600])
+            clock.set_zone(rng.choice(["Pacific/Kiritimati", "Pacific/Pago_Pago", "UTC", "Asia/Tokyo", "America/Los_Angeles", "Europe/Berlin"]))
+            clock.freeze(tnow)
         if g > 0:
             k = rng.random()
             # only files whose first record exists already: otherwise "restore" would not lead back to the recorded content
